@@ -336,6 +336,35 @@ func C18(ctx *core.Ctx) {
 		}
 	}
 
+	// ---- R7: prefix normalisation replaces whole {variable} tokens ------------------------
+	// Renaming a prefix variable is compatible, changing a static token is not:
+	// the normaliser may blank `{name}` tokens, never the bare name (which also
+	// occurs inside static tokens: `user.{user}`).
+	ctx.Rule("C18.R7", "scope prefixes are normalised token-wise: no replacement of a bare variable name inside the prefix text", 1)
+	{
+		nRep, bad := 0, ""
+		for f := range k.cone {
+			for _, c := range ssax.Calls(f) {
+				full := c.FullName()
+				if full != "strings.Replace" && full != "strings.ReplaceAll" {
+					continue
+				}
+				nRep++
+				old := ssax.Strip(c.Common.Args[1])
+				// a bare element of a Variables list: a load of an element of the slice, with no "{" glued on
+				if ld, isLd := old.(*ssa.UnOp); isLd && ld.Op == token.MUL {
+					if ia, isIA := ld.X.(*ssa.IndexAddr); isIA {
+						if src, isSrc := ssax.Strip(ia.X).(*ssa.UnOp); isSrc && fieldNameOfAddr(src.X) == "Variables" {
+							bad = cc.IPos(c.Instr)
+						}
+					}
+				}
+			}
+		}
+		ctx.Check(bad == "", "C18.R7", "audit › no bare variable name is replaced in a prefix", "compiler/parser/audit.go", sprintf("%d strings.Replace call(s) in the audit cone", nRep),
+			"the audit blanks the bare name of a prefix variable in the prefix text (at "+bad+"): the name also matches inside static tokens, so `v1.user.{user}` → `v1.account.{account}` compares equal (a changed prefix passes) and `v1.users.{user}` → `v1.users.{id}` compares different (a pure rename is reported)")
+	}
+
 	// parameter colours to a fixpoint
 	for iter := 0; iter < 12; iter++ {
 		changed := false
